@@ -498,6 +498,182 @@ fn oracle_impl(_ctx: &RunCtx, spec: &HistSpec, log: &mut CaseLog, judge_factors:
     Ok(())
 }
 
+// ---------------------------------------------------------------------------------------------------------------------
+// the same two oracles BEYOND THE CHUNK SIZE: factors of members at positions >= 256 (>= 512)
+
+#[derive(Clone, Debug, Serialize, Deserialize)]
+pub struct LongFactorSpec {
+    pub ext: usize,
+    pub pool: Vec<PoolMember>,
+    /// batch length
+    pub k: u16,
+    pub order: u64,
+    /// the probed member is `i_off` positions before the end (so always in the last chunk); the second one is either in the same
+    /// chunk (`j_same_chunk`) or anywhere
+    pub i_off: u8,
+    pub j_pos: u16,
+    pub j_same_chunk: bool,
+    pub slot: Slot,
+    pub coord: u16,
+    pub delta: u64,
+    pub mode: bool,
+}
+
+pub fn long_factor_strategy() -> impl Strategy<Value = LongFactorSpec> {
+    (
+        1usize..=3,
+        prop::collection::vec(pool_member_valid(), 2..=3),
+        prop_oneof![3 => 258u16..=262, 1 => 514u16..=516],
+        any::<u64>(),
+        any::<u8>(),
+        any::<u16>(),
+        any::<bool>(),
+        slot_strategy(),
+        any::<u16>(),
+        prop_oneof![Just(1u64), any::<u64>()],
+        any::<bool>(),
+    )
+        .prop_map(|(ext, pool, k, order, i_off, j_pos, j_same_chunk, slot, coord, delta, mode)| LongFactorSpec {
+            ext,
+            pool,
+            k,
+            order,
+            i_off,
+            j_pos,
+            j_same_chunk,
+            slot,
+            coord,
+            delta,
+            mode,
+        })
+}
+
+/// factors of the members from position `from` on (markers only there: a marked member makes its chunk fail, and the verifier
+/// stops at the first failing chunk, so the earlier chunks have to stay honest for the last one to be evaluated at all)
+fn weights_tail(ms: &[Member<F>], proofs: &[RangeProof<FP>], action: VerifyAction, from: usize) -> Result<Vec<Scalar>, String> {
+    let marked: Vec<RangeProof<FP>> = ms
+        .iter()
+        .zip(proofs.iter())
+        .enumerate()
+        .map(|(i, (m, p))| {
+            if i < from {
+                return Ok(p.clone());
+            }
+            edit(&copy_of(m, p), |pf| {
+                let b = <FP as Grp>::dec(&pf.b).expect("B decodes");
+                pf.b = b.add(&FP::basis(MARK + i as u128)).enc();
+            })
+        })
+        .collect::<Result<_, String>>()?;
+    let (_, res) = run(ms, &marked, action)?;
+    Ok((0..ms.len()).map(|i| if i < from { Scalar::ZERO } else { -res.coef(MARK + i as u128) }).collect())
+}
+
+fn copy_of(m: &Member<F>, proof: &RangeProof<FP>) -> Member<F> {
+    Member::<F> {
+        st: m.st.clone(),
+        proof: proof.clone(),
+        ctx: m.ctx.clone(),
+        valid: true,
+        mask: None,
+        m: m.m,
+        cap: m.cap,
+        altered: false,
+    }
+}
+
+pub fn long_factor_oracle(_ctx: &RunCtx, spec: &LongFactorSpec, log: &mut CaseLog) -> Result<(), String> {
+    F::reset_case();
+    let bits = 2usize;
+    let pool: Vec<Member<F>> = spec
+        .pool
+        .iter()
+        .map(|pm| build_member::<F>(bits, spec.ext, pm, 8))
+        .collect::<Result<_, _>>()?;
+    let k = spec.k as usize;
+    let ms: Vec<Member<F>> = (0..k)
+        .map(|pos| {
+            let src = &pool[(crate::gen::mix(spec.order, pos as u64) as usize) % pool.len()];
+            copy_of(src, &src.proof)
+        })
+        .collect();
+    let action = if spec.mode { VerifyAction::VerifyOnly } else { VerifyAction::RecoverAndVerify };
+    let honest: Vec<RangeProof<FP>> = ms.iter().map(|m| m.proof.clone()).collect();
+    let (ok, _) = run(&ms, &honest, action)?;
+    if !ok {
+        return Err(format!("honest batch of {} rejected", k));
+    }
+    let chunk_start = (k - 1) / 256 * 256;
+    let i = k - 1 - (spec.i_off as usize % (k - chunk_start));
+    // both members sit in the last chunk (each chunk has its own final equation)
+    let _ = spec.j_same_chunk;
+    if k - chunk_start < 2 {
+        return Ok(());
+    }
+    let mut j = chunk_start + spec.j_pos as usize % (k - chunk_start);
+    if j == i {
+        j = if i > chunk_start { i - 1 } else { i + 1 };
+    }
+    // (1) every factor nonzero; (2) the ratio w_i / w_x moves when a response scalar of member i moves
+    let before = weights_tail(&ms, &honest, action, chunk_start)?;
+    if let Some(x) = before.iter().skip(chunk_start).position(|w| *w == Scalar::ZERO) {
+        return Err(format!("the factor of member {} of {} in the batch equation is zero", chunk_start + x, k));
+    }
+    let changed = edit(&copy_of(&ms[i], &honest[i]), |pf| match &spec.slot {
+        Slot::R1 => add(&mut pf.r1, Scalar::ONE),
+        Slot::S1 => add(&mut pf.s1, Scalar::ONE),
+        Slot::D1(c) => {
+            let c = pick(*c, pf.d1.len());
+            add(&mut pf.d1[c], Scalar::ONE)
+        },
+        Slot::D1Pair(a, b) => bump_pair(pf, *a, *b),
+    })?;
+    let mut next = honest.clone();
+    next[i] = changed;
+    let after = weights_tail(&ms, &next, action, chunk_start)?;
+    for x in [chunk_start, j, k - 1] {
+        if x == i || x >= k {
+            continue;
+        }
+        if after[x] == Scalar::ZERO || after[i] == Scalar::ZERO {
+            return Err(format!("a factor became zero after changing a response scalar of member {} of {}", i, k));
+        }
+        if before[i] * after[x] == after[i] * before[x] {
+            return Err(format!(
+                "the ratio of the factors of members {} and {} did not change when response scalar {:?} of member {} changed (batch of {})",
+                i, x, spec.slot, i, k
+            ));
+        }
+    }
+    // (3) offsets between members i and j from factors observed on earlier runs of this batch, or assumed equal
+    let c = pick(spec.coord, spec.ext);
+    let wi = probe_factor(&ms, &honest, action, &[i], c)?;
+    let wj = probe_factor(&ms, &honest, action, &[j], c)?;
+    if wi == Scalar::ZERO || wj == Scalar::ZERO {
+        return Err(format!("a unit shift of d1[{}] of member {} or {} of {} does not enter the batch equation at all", c, i, j, k));
+    }
+    let d = Scalar::from(spec.delta.max(1));
+    for (guess, ratio) in [("w_i/w_j as observed on earlier runs", wi * wj.invert()), ("1 (equal and opposite offsets)", Scalar::ONE)] {
+        let mut atk = honest.clone();
+        atk[i] = edit(&copy_of(&ms[i], &honest[i]), |pf| add(&mut pf.d1[c], d))?;
+        atk[j] = edit(&copy_of(&ms[j], &honest[j]), |pf| add(&mut pf.d1[c], -(d * ratio)))?;
+        let (ok, _) = run(&ms, &atk, action)?;
+        if ok {
+            return Err(format!(
+                "ADAPTIVE CANCELLATION ACCEPTED: offsets +d on d1[{}] of member {} and -d*ratio on member {}, ratio = {}, verify as a batch of {}",
+                c, i, j, guess, k
+            ));
+        }
+    }
+    log.extra_evals += 8;
+    log.label("engine=F");
+    log.label(format!("long-factors:k={}", if k > 512 { ">512" } else { "257..262" }));
+    log.label(format!("ext={}", spec.ext));
+    log.nontrivial(&(k, i, j, c, spec.ext, spec.order));
+    log.sample(json!({"kind": "factors beyond the chunk size", "batch": k, "i": i, "j": j, "ext": spec.ext, "mode": if spec.mode { "VerifyOnly" } else { "RecoverAndVerify" }}));
+    Ok(())
+}
+
 pub fn def() -> PropertyDef {
     PropertyDef {
         id: "C08",
@@ -506,7 +682,7 @@ pub fn def() -> PropertyDef {
                and an adaptive script of 1-4 steps. The factor by which each proof's equation enters the batch is read from the verifier's final \
                multiscalar result through a marker planted in each B. Steps: 'reprobe' - add 1 to r1, s1 or d1[k] of one member and read the \
                factors again; 'attack' - add +d to d1[k] of member i and -d*ratio to d1[k] of member j (also: the same offset on both copies of a repeated member, compensated on a third), where ratio is first w_i/w_j with w the factor with which a unit shift of d1[k] entered the final equation on EARLIER RUNS of this very batch (no marker, so the transcripts are those of the batch submitted), then 1 (equal and opposite). Oracle: every factor is nonzero; after a reprobe the ratio w_i/w_x changed for every other \
-               member x; every attack is rejected and (from the honest state) does not cancel on g_k. Second generator (R and F): naive \
+               member x; every attack is rejected and (from the honest state) does not cancel on g_k. Second generator (engine F): batches of 258-262 / 514-516 small proofs, both members in the LAST chunk (markers only there: the verifier stops at the first failing chunk) - same three oracles (nonzero, ratio moves, offsets rejected). Third generator (R and F): naive \
                equal-and-opposite shifts of d1[k] in two or three members are rejected. Non-trivial = an attack step that uses factors observed \
                earlier in the same history; distinct by (batch size, i, j, k, script shape, degree, bits)."
             .into(),
@@ -517,6 +693,7 @@ pub fn def() -> PropertyDef {
         exhaustive: false,
         subs: vec![
             sub("F/adaptive-histories", no_fixed, (12_000, 150_000), |_: &RunCtx, _: Option<&()>| hist_strategy(), oracle),
+            sub("F/factors-beyond-the-chunk-size", no_fixed, (160, 2500), |_: &RunCtx, _: Option<&()>| long_factor_strategy(), long_factor_oracle),
             cancel_sub::<F>((5000, 50_000)),
             cancel_sub::<R>((600, 5000)),
         ],
